@@ -58,12 +58,14 @@ def deep_episodes(env: str, cfg: Dict[str, Any], tier: str, extra: Dict[str, Any
     return out
 
 
-def env_cfg_shards(tier: str, env_list: List[str], weight: Dict[str, float] = None, cfg_filter=None) -> List[Dict[str, Any]]:
+def env_cfg_shards(tier: str, env_list: List[str], weight: Dict[str, float] = None, cfg_filter=None, prop: str = None) -> List[Dict[str, Any]]:
     out = []
     for e in env_list:
         for c in E.configs(e, tier):
             if cfg_filter is not None and not cfg_filter(e, c):
                 continue
+            if prop is not None and "props" in c and prop not in c["props"]:
+                continue  # a configuration may be restricted to the properties whose statement covers it (see jmon/envs.py)
             out.append({"id": f"{e}|{c['id']}", "env": e, "cfg": c, "weight": (weight or {}).get(e, 1.0)})
     return out
 
